@@ -23,7 +23,14 @@ ASSUMPTIONS = EP.ASSUMPTIONS + ["pre-emption inside one cache operation (between
                                 "is not exhibited: each cache operation is atomic in the model"]
 EXPLANATION = "theorems in Props/C12.lean (every cache operation an evaluation issues preserves Sound under any interleaving)"
 
-CACHES = [("MemoryCache", "1"), ("FileCache", "1"), ("StoreCache(MemoryStore,flat)", "1")]
+CACHES = [("MemoryCache", "1"), ("FileCache", "1"), ("StoreCache(MemoryStore,flat)", "1"), ("SQLCache(shared sqlite connection)", "0")]
+
+
+def sql_shared():
+    """an SQLCache usable from several threads: one sqlite connection opened with check_same_thread=False (the scheduler lets one thread run at a time)"""
+    import sqlite3
+    from liquer.cache import SQLCache
+    return SQLCache(connection=sqlite3.connect(":memory:", check_same_thread=False), table="liquer_cache", delete_before_insert=True)
 
 
 class Scheduler:
@@ -111,7 +118,7 @@ def run_schedule(task):
     tmp = EP.scratch()
     try:
         cfgs = {c[0]: c for c in EP.cache_configs(tmp)}
-        inner = cfgs[CACHES[ci][0]][1]()
+        inner = sql_shared() if CACHES[ci][0].startswith("SQLCache") else cfgs[CACHES[ci][0]][1]()
         n = len(queries)
         sched = Scheduler(n)
         EP.set_global(inner, defaults)
@@ -231,39 +238,84 @@ def gen_tasks(ctx, count):
         tasks.append((i % len(CACHES), qs, gen_schedule(rng, n, 5 if ctx.tier == "thorough" else 3), {} if rng.random() < 0.8 else {"a": "dflt"}))
     # structured family: three evaluations sharing a prefix; one of them is pre-empted twice and the other two run to completion in the
     # gaps (the window between a progress write and the store of a shared prefix, with a third evaluation reading in it)
+    # Every position k1 of the first pre-emption is taken (the windows are a few operations wide), for a text-valued and for a generated prefix.
     big = 400
-    pairs = [(k1, k2) for k1 in range(1, 16) for k2 in range(1, 12)]
     for ci in range(len(CACHES)):
-        base = H.g_query(rng, 0, rng.randint(1, 2), special=0.0)
-        qs = [base + "/cat-a", base + "/cat-b", base + "/cat-c"]
-        pick = pairs if ctx.tier == "thorough" else rng.sample(pairs, 60 if ci == 0 else 25)
-        for k1, k2 in pick:
-            tasks.append((ci, qs, [1] * k1 + [0] * big + [1] * k2 + [2] * big + [1] * big, {}))
+        for base in ("hello-x", H.g_query(rng, 0, rng.randint(1, 2), special=0.0)):
+            qs = [base + "/cat-a", base + "/cat-b", base + "/cat-c"]
+            for k1 in range(1, 21):
+                for k2 in (range(1, 12) if ctx.tier == "thorough" else rng.sample(range(1, 12), 2)):
+                    tasks.append((ci, qs, [1] * k1 + [0] * big + [1] * k2 + [2] * big + [1] * big, {}))
     return tasks
+
+
+def _positions(ops, before=(), after=()):
+    """numbers of file operations a thread has executed when it is stopped right BEFORE an operation of a kind in `before` / right AFTER one in `after`"""
+    pos = set()
+    for i, o in enumerate(ops):
+        if o[:1] in before:
+            pos.add(i)
+        if o[:1] in after:
+            pos.add(i + 1)
+    return sorted(pos)
 
 
 def gen_file_tasks(ctx):
     """schedules at FILE-operation granularity (concfile.py): three evaluations sharing a prefix on a file-backed cache.
-    F1: thread 0 is stopped after kA file operations, thread 1 after kB + 1, then 0, 2 and 1 run to completion (two writers of the shared
-        prefix inside each other's write protocol, then a reader); F2: thread 0 is stopped after k file operations, thread 2 runs start to
-        end (a reader inside one writer's protocol), then thread 0 finishes."""
+    F1: thread 0 is stopped after kA file operations, thread 1 after kB, then 0, 2 and 1 run to completion (two writers — of the shared
+        prefix and of their own results — inside each other's write protocol, then a reader);
+    F2: thread 0 is stopped after k file operations, thread 1 runs start to end (it looks the shared prefix up inside thread 0's write
+        protocol: a reader inside one writer's protocol), then 0 finishes;
+    (every thread performs its first look-up before the schedule starts; the READER of the shared prefix is thread 1, which looks the
+    prefix up again after its first progress write: F1 also stops it right before / between its open-for-reading operations, i.e. between
+    the existence test and the open and between the metadata read and the data read, while thread 0 removes and rewrites the entry);
+    F3: as F1 with thread 1 stopped before a read, but thread 0 then runs only until right after one of its unlinks (the entry is half
+        replaced), then thread 1 continues;
+    The stopping points are TARGETED: a probe run records the sequence of file operations of the thread (create, write, close, rename,
+    unlink, open-for-reading); kA ranges over the points right before / after a rename, a close, a create, an unlink of thread 0; for each
+    kA a second probe records what the other thread does from there, and kB ranges over its points right after a create / write / rename / unlink / open-for-reading and right before a rename / an
+    open-for-reading.  Quick tier: all pairs (before a rename, after a create or write) — the window in which a shared temporary file is
+    overwritten —, all pairs in which thread 1 is stopped before a read, plus a seeded sample of the rest; thorough tier: all pairs."""
     rng = ctx.rng
     big = 2000
     tasks = []
     thorough = ctx.tier == "thorough"
-    for bi in range(len(concfile.BACKENDS)):
-        base = H.g_query(rng, 0, 1, special=0.0)
+    probes_a, plan, ops0s = [], [], {}
+    # a TEXT-valued shared prefix (an empty or truncated text file still decodes, so a torn entry is served rather than taken for a miss);
+    # thorough tier: a generated prefix as well
+    for bi, base in [(b, "hello-" + rng.choice(["abc", "x", "w_1", "longer_argument_text"])) for b in range(len(concfile.BACKENDS))] + (
+            [(b, H.g_query(rng, 0, 1, special=0.0)) for b in range(len(concfile.BACKENDS))] if thorough else []):
         qs = [base + "/cat-a", base + "/cat-b", base + "/cat-c"]
-        # how many file operations does one of these evaluations perform (alone, cold cache)?
-        probe = concfile.run_file_schedule((bi, qs, [0] * big + [1] * big, {}))
-        n0 = max(10, min(400, (probe or {}).get("nops", [80])[0]))
-        n1 = max(10, min(400, ((probe or {}).get("nops", [80, 80]) + [80])[1]))
-        f1 = [(ka, kb) for ka in range(1, n0 + 1) for kb in range(0, n1 + 1)]
-        for ka, kb in (f1 if thorough and len(f1) <= 6000 else rng.sample(f1, min(len(f1), 6000 if thorough else 90))):
-            tasks.append((bi, qs, [0] * ka + [1] * (kb + 1) + [0] * big + [2] * big + [1] * big, {}, "F1"))
-        f2 = list(range(1, n0 + 1))
-        for k in (f2 if thorough else rng.sample(f2, min(len(f2), 45))):
-            tasks.append((bi, [qs[0], qs[1], base], [0] * k + [2] * big + [0] * big + [1] * big, {}, "F2"))
+        rq = [qs[0], qs[1], base]
+        probe = concfile.run_file_schedule((bi, qs, [0] * big + [1] * big, {})) or {}
+        ops0 = (probe.get("ops") or [[]])[0]
+        if not ops0:
+            ops0 = ["a ?"] * 40
+        ops0s[(bi, base)] = ops0
+        ka_all = [k for k in _positions(ops0, before="rx", after="rcu") if 0 < k <= len(ops0)]
+        ctx.count("file operations of one evaluation (probe)", "%s: %d, %d stopping points" % (concfile.BACKENDS[bi], len(ops0), len(ka_all)))
+        for ka in ka_all:
+            probes_a.append((bi, qs, [0] * ka + [1] * big + [0] * big, {}))
+            plan.append((bi, qs, ka, ops0[ka][:1] if ka < len(ops0) else "-"))
+        f2 = list(range(1, len(ops0) + 1))
+        for k in (f2 if thorough else sorted(set(ka_all) | set(rng.sample(f2, min(len(f2), 20))))):
+            tasks.append((bi, qs, [0] * k + [1] * big + [0] * big + [2] * big, {}, "F2"))
+            if thorough:
+                tasks.append((bi, rq, [0] * k + [2] * big + [0] * big + [1] * big, {}, "F2"))
+    answers = common.pmap(concfile.run_file_schedule, probes_a)
+    rest = []
+    for (bi, qs, ka, next0), r in zip(plan, answers):
+        ops1 = ((r or {}).get("ops") or [[], []])[1]
+        for kb in _positions(ops1, before="ro", after="caruo"):
+            t = (bi, qs, [0] * ka + [1] * kb + [0] * big + [2] * big + [1] * big, {}, "F1")
+            overwrite = next0 == "r" and kb > 0 and ops1[kb - 1][:1] in "ca"      # a writer about to publish, the other one has just created / written
+            reading = kb < len(ops1) and ops1[kb][:1] == "o"                        # thread 1 is stopped inside its read of the shared prefix
+            (tasks if overwrite or reading or thorough else rest).append(t)
+            if reading:
+                # F3: ... and thread 0 goes on only until right after one of its later unlinks (the entry is being replaced), then the reader continues
+                for iu in [i for i, o in enumerate(ops0s[(bi, qs[0][:-6])]) if o[:1] == "u" and i >= ka]:
+                    tasks.append((bi, qs, [0] * ka + [1] * kb + [0] * (iu + 1 - ka) + [1] * big + [0] * big + [2] * big, {}, "F3"))
+    tasks += rng.sample(rest, min(len(rest), 260))
     return tasks
 
 
